@@ -130,6 +130,31 @@ CHECKS = {
 
 NOT_YET = {}
 
+# additions of the later rounds (appended to the entries above)
+ADD = {
+    'C08': dict(technique=' + definitions REGENERATED from the numpy vector expressions of the source (harness/translate_vec.py) proved equal to the model for every scalar type',
+                text=' The closed-form line is proved to MINIMISE the sum of squared residuals (lsq_minimises). The naive sum is regenerated from the source text on every run (Gen/VecFormulas.lean) and proved equal to the model (naiveDamage_eq).',
+                note=' np.polyfit is compared with the closed form, which is the least-squares minimiser by theorem.'),
+    'C10': dict(technique=' + Lean 4 proof about an EXECUTABLE model of the whole hlrfFORM loop, mvalFOSM and the Nataf map for normal / lognormal marginals (Model/{Linalg,Chol,Nataf,Form}.lean), tied to the implementation iterate by iterate (evaluation points of g observed through the callback)',
+                text=' About the executable loop model (Proofs/C10Loop.lean): every iterate has |u| = |beta|; when the loop leaves through its tolerance test |g(x)| < tol |grad G|; the whole loop (outcome, number of steps, every iterate) is invariant under positive rescaling of g; for a linear limit state of normal variables with any correlation the loop RETURNS for every iter >= 1 and tol > 0 with beta = (d + sum c_i mu_i) / |L^T D c|, the design point on the limit state, |L^T D c|^2 = c^T D rho D c when L L^T = rho; no feasible point of the constrained formulation is closer to the origin (agreement with coptFORM); for L = 1 this is the regenerated mvalFOSM index (fosmBeta_eq).',
+                note=' The executable loop model is compared with hlrfFORM on random problems (normal / lognormal marginals, linear and quadratic limit states, random tol / iter): outcome, number of iterations, every evaluation point, beta, uCoord, xCoord at 1e-7 relative (looser only where the implementation itself loses the upper tail, DESIGN 7).'),
+    'C11': dict(technique=' + Lean 4 proof about an EXECUTABLE model of the transformation for normal / lognormal marginals including its own Cholesky factorisation and triangular inverse (Model/{Chol,Nataf}.lean), compared with the implementation (L, L^-1, rhoZ, getU, getX, both matrices)',
+                text=' About the executable model (Proofs/C11Chol.lean, C11Model.lean): the outer-product Cholesky algorithm returns a lower-triangular L with positive diagonal and L L^T = A for every symmetric A with positive pivots; forward substitution returns X with L X = X L = 1; for the model built from them X->U->X and U->X->U are the identity on the support, the two returned matrices are inverse to each other, each is entrywise the partial derivative (HasDerivAt) of the other map; lognormal pair: the closed-form latent correlation reproduces the prescribed one.',
+                note=' The executable model is compared with NatafTransformation on random problems: L 1e-11, L^-1 1e-9, getU / getX 1e-8, returned matrices 1e-7, closed-form latent correlation vs rhoZ 2e-6.'),
+    'C12': dict(technique=' + the three closing formulas REGENERATED from the numpy vector expressions of the source on every run (harness/translate_vec.py) and proved equal to the model for every scalar type',
+                text=' breitungPf_eq / tvedtPf_eq / hrackPf_eq: the definitions regenerated from the source text are the model definitions the theorems are about (for every scalar instance, so also for the Float instance evaluated against the implementation).',
+                note=' Translation validation of the regenerated formulas at Float against breitungSORM / tvedtSORM / hrackSORM (1e-11, Tvedt 1e-9).'),
+    'C13': dict(technique=' + the returned pf as a function of the level list (Subset.pf) with the product theorem',
+                text=' run_shape / C13_pf_product / C13_pf_le_one: every level before the last stored p0 with a positive threshold; when the last level reached the zero threshold with k of N samples in the failure set the returned pf is p0^(m-1) k / N, hence in [0, 1].',
+                note=' The returned pf is compared with the model product (p0 as the exact binary fraction) at 1e-12.'),
+    'C14': dict(technique=' + detailed balance in integral form on sigma-finite state spaces (Mathlib measure theory)',
+                text=' C14c_detailed_balance: for the move part of the kernel of the plain sampler on any sigma-finite state space, with a symmetric proposal density and a target positive on the domain, the probability flow from A to B equals the flow from B to A for all sets A, B.',
+                note=''),
+    'C20': dict(technique=' + an EXECUTABLE model of gramSchmidOrth (coincidence test, column re-arrangement, the two loops; Model/Gram.lean) proved to be the abstract two-loop Gram-Schmidt in Euclidean space and compared with the implementation column by column',
+                text=' C20m_mgs_toE / C20m_orthonormal / C20m_first: the executable loops are the abstract loops under the embedding into EuclideanSpace; on linearly independent columns the output columns satisfy dot B_i B_j = delta_ij and the first is the normalised first column handed to the loops.',
+                note=' The executable model is compared with gramSchmidOrth at 1e-9 on integer matrices (default alignment, generic vector, exact positive / negative multiples of a column, vectors near a column).'),
+}
+
 
 def fix_commits():
     import subprocess
@@ -150,7 +175,9 @@ def main():
     for p in props:
         pid = p['id']
         if pid in CHECKS:
-            c = CHECKS[pid]
+            c = dict(CHECKS[pid])
+            for k, v in ADD.get(pid, {}).items():
+                c[k] = c[k] + v
             checks.append({
                 'property_id': pid,
                 'quick_cmd': f'./check {pid} --tier quick',
@@ -174,6 +201,7 @@ def main():
             {'name': 'formula', 'path': 'harness/translate.py + harness/gen.py + lean/FFVerif/FFVerif/Gen/*.lean', 'serves_properties': ['C08', 'C09', 'C12', 'C18', 'C20'], 'kind_free_text': 'Python-AST to Lean translator (generic scalar), translation validation at Float, theorems at the reals'},
             {'name': 'oracle-stream', 'path': 'lean/FFVerif/FFVerif/Model/{Arma,Sampler,Subset}.lean', 'serves_properties': ['C13', 'C14', 'C16'], 'kind_free_text': 'models with the randomness as a parameter; scripted / observed oracle streams, trace validation'},
             {'name': 'state-machine', 'path': 'lean/FFVerif/FFVerif/Model/Seed.lean', 'serves_properties': ['C15'], 'kind_free_text': 'seeding contract as a state machine, protocol conformance + replay'},
+            {'name': 'executable-numeric-models', 'path': 'harness/formmodel.py + lean/FFVerif/FFVerif/Model/{Linalg,Chol,Nataf,Form,Gram}.lean + harness/translate_vec.py', 'serves_properties': ['C08', 'C10', 'C11', 'C12', 'C20'], 'kind_free_text': 'executable generic-scalar models of the Nataf map, Cholesky / triangular inverse, the HL-RF loop, Gram-Schmidt, evaluated at Float against the implementation and proved about at the reals; vector-expression translator for the closing formulas'},
             {'name': 'real-analysis', 'path': 'lean/FFVerif/FFVerif/Proofs/{C10,C11,C17}.lean', 'serves_properties': ['C10', 'C11', 'C17'], 'kind_free_text': 'Mathlib theorems about the exact methods, tolerance tie to the implementation'},
         ],
         'checks': checks,
